@@ -189,8 +189,15 @@ def _where(cond, *xy):
         mask = _fork_mask(c) if c.dtype == object else c
         return _np.where(mask)
     x, y = xy
-    return _elementwise(lambda c, a, b: Ite(c, a, b) if isinstance(c, Sym) else (a if c else b),
-                        cond, x, y)
+
+    def pick(c, a, b):
+        if not isinstance(c, Sym):
+            return a if c else b
+        from .num import liftable
+        if liftable(a) and liftable(b):
+            return Ite(c, a, b)
+        return a if bool(c) else b          # values without a term form (angles, ...): fork on the condition
+    return _elementwise(pick, cond, x, y)
 
 
 def _isnan(x):
